@@ -318,3 +318,28 @@ Theorem nonvacuous :
   (* the computed difference is not everything and not nothing *)
   /\ diff4 <> [] /\ diff6 <> [].
 Proof. repeat split; try (vm_compute; reflexivity); vm_compute; discriminate. Qed.
+
+(* ---- histories.  The verdict on a connection is a function of the current options and of that
+   connection alone, whatever was served before on the same addon instance. *)
+Theorem history_stateless : forall st h,
+  run_history st h = map (fun c => client_connected (c_bp c) (c_bg c) (c_mode c) (c_addr c)) h.
+Proof.
+  intros st h. revert st. induction h as [|c r IH]; intros st; cbn [run_history map]; [reflexivity|].
+  unfold hook_step. rewrite IH. reflexivity.
+Qed.
+
+Theorem history_partial : forall st h,
+  Forall2 (fun c e => ip_wf (c_addr c) = true -> in_diff (c_addr c) = false ->
+                      is_some e = spec_refused (c_bp c) (c_bg c) (spec_local (c_mode c)) (c_addr c))
+          h (run_history st h).
+Proof.
+  intros st h. rewrite history_stateless. induction h as [|c r IH]; cbn [map]; constructor; [|exact IH].
+  intros Hwf Hd. exact (partial (c_bp c) (c_bg c) (c_mode c) (c_addr c) Hwf Hd).
+Qed.
+
+Theorem history_exempt : forall st h,
+  Forall2 (fun c e => spec_loopback (c_addr c) = true \/ c_mode c = LocalMode -> e = None) h (run_history st h).
+Proof.
+  intros st h. rewrite history_stateless. induction h as [|c r IH]; cbn [map]; constructor; [|exact IH].
+  intros H. exact (exempt (c_bp c) (c_bg c) (c_mode c) (c_addr c) H).
+Qed.
